@@ -328,3 +328,9 @@ package arvados
 //@   ensures found && flag & os.O_EXCL != 0 ==> result1 == ErrFileExists
 //@   ensures missing && flag & os.O_CREATE == 0 ==> result1 == os.ErrNotExist
 //@   ensures flag & 3 == 3 ==> result1 != nil
+
+// SizedDigests: no index or slice expression can panic, whatever the manifest
+// text: a token reaches the hash+size cut (token[33:]) only after matching the
+// locator pattern, which guarantees at least 34 characters.  (Safety
+// obligations only; they are generated automatically.)
+//@ func Collection.SizedDigests property C10
